@@ -262,6 +262,10 @@ class Node:
                 if isinstance(err, subproc.CalledProcessError) \
                         and fakes.fault_hits():
                     raise ManagerCrash('_on_%s' % event.value, err)
+                if isinstance(err, FileNotFoundError) and any(h[0] == 'midsync_unlink' for h in fakes.fault_hits()):
+                    # a cache entry vanished between the listing and the stat inside the synchronisation: the
+                    # service dies and its supervisor restarts it (inactive until the next readiness event)
+                    raise ManagerCrash('_on_%s(cache entry vanished)' % event.value, err)
                 raise HandlerError('_on_%s' % event.value, err)
             finally:
                 self.note_supervised()
